@@ -3,6 +3,7 @@
   was verified from; origin of every fork-choice candidate.
 -/
 import Core.Lemmas.Replay
+import Core.Lemmas.AddBlock
 import Mathlib.Tactic.SplitIfs
 open Std
 
@@ -146,9 +147,9 @@ theorem verify_replays (env : Env) (cfg : Cfg) (host : Ledger) (lastHost nb oldH
   obtain ⟨hv, nl, fin, hl, ha⟩ := verify_inv env cfg host lastHost nb oldHost v now h
   refine ⟨hv, ?_⟩
   obtain ⟨hb, hr⟩ := verifyLoop_replays env cfg now lastHost _ nl _ nb hl
-  unfold Ledger.addBlock at ha
+  obtain ⟨_, c0, hc0, _⟩ := Ledger.addBlock_inv ha
   cases hc : nl.confirmLast with
-  | error e => simp [hc] at ha
+  | error e => rw [hc] at hc0; cases hc0
   | ok c =>
     obtain ⟨_, hm⟩ := confirmLast_conf nl c hc
     by_cases hne : nb = []
